@@ -24,7 +24,7 @@ func C15(r *core.Report) {
 	r.Assumptions = []string{"channel FIFO; sync.WaitGroup semantics"}
 	p := r.Prog
 	checkReadSectionLength(r, "C15.R6")
-	r.Floor("C15.R6", 2)
+	r.Floor("C15.R6", 1)
 	run := r.Anchor("C15.R1", "accum.(*ObjectAccumulator).Run")
 	if run == nil {
 		return
@@ -57,11 +57,11 @@ func C15(r *core.Report) {
 	c15HeaderKeptAsParsed(r, "C15.R9")
 	r.Floor("C15.R8", 1)
 	r.Floor("C15.R7", 1)
-	r.Floor("C15.R1", 3)
+	r.Floor("C15.R1", 2)
 	r.Floor("C15.R2", 2)
-	r.Floor("C15.R3", 2)
-	r.Floor("C15.R4", 3)
-	r.Floor("C15.R5", 3)
+	r.Floor("C15.R3", 1)
+	r.Floor("C15.R4", 2)
+	r.Floor("C15.R5", 2)
 }
 
 // c15Ownership (R2).
